@@ -19,6 +19,7 @@ import re
 from ..kernel import HarnessError
 
 PID = "C18"
+USES_GENERATOR = False
 LEVEL = "model_checking"
 RULE = ("streams = all sequences of <=3 records over the record alphabet (unterminated record only last; quick: singles and pairs over the whole alphabet of 14 SSE / 8 NDJSON "
         "records, triples over a core of 8 / 6); schedules = all "
